@@ -4,6 +4,15 @@ import json, os
 V = os.path.dirname(os.path.dirname(os.path.abspath(__file__)))
 
 CLAIMED = {
+ 'C06': dict(
+  text='Abstract interpretation of the JSON/XDL parser loop over every reachable abstract configuration (state, previous state, comment flag, '
+       'escape counter, context stack with per-object pending-name count) and every non-NUL byte (byte classes of the atomic guards): no pop of '
+       'the ROOT context, no top() of an empty stack, values stored into objects only with a pending name, context/value-list pairing, every \\u '
+       'escape completes, push-back terminates; plus state-dispatch exhaustiveness, the acceptance condition of value()/decode(), and the '
+       'structural chunk-independence conditions (no look-ahead through the cursor, no per-call state). Reports carry a witness input. '
+       'Agreement with an independent JSON parser is not decided.',
+  technique='abstract interpretation of the parser transition function (worklist fixpoint over finite abstract configurations x byte classes), exhaustiveness and dominance queries on the resolved AST',
+  ref='DESIGN.md section 2 R-AUTOMATON, section 3 C06'),
  'C09': dict(
   text='Static decision of the structural clauses of HTTP request parsing: on every path through HttpRequest::read the path is percent-decoded '
        'and then stripped of ".." with nothing decoding or rewriting it afterwards (typestate over the CFG), no other writer of the path, file '
